@@ -79,6 +79,9 @@ func VerifParsersConcurrent() {
 		{SecondOptional | Minute | Hour | Dom | Month | Dow, "9 8 * * * *", 1 << 9, 1 << 8},
 		{Minute | Hour | Dom | Month | DowOptional, "11 * * *", 1, 1 << 11},
 		{Minute | Hour | Dom | Month | Dow, "13 * * * *", 1, 1 << 13},
+		// specs that name a time zone (the zone database is a contract stub: some location or an error)
+		{Minute | Hour | Dom | Month | Dow, "TZ=UTC 15 * * * *", 1, 1 << 15},
+		{Minute | Hour | Dom | Month | Dow, "CRON_TZ=Asia/Tokyo 17 * * * *", 1, 1 << 17},
 	}
 	a := cfgs[zzverif.Choose("first", len(cfgs))]
 	b := cfgs[zzverif.Choose("second", len(cfgs))]
